@@ -79,6 +79,22 @@ def generate(rng, tier, seed):
         if not r.ok or r.value != spl:
             c.fail("CBC-MAC splice identity fails")
         yield c
+    # the same key bytes used consecutively with different algorithms / paddings / lengths (results must not depend on call history)
+    for _ in range(30 * reps):
+        key = rb(rng, rng.choice((16, 24)))
+        c = Case("same-key-sequence", {})
+        for _ in range(6):
+            alg = rng.choice((A.DES, A.AES, None))
+            bs = 16 if alg == A.AES else 8
+            data, padding, length = rb(rng, rng.randrange(0, 40)), rng.choice((1, 2, 3)), rng.choice([None, 4, bs])
+            r = c.call("mac.generate_cbc_mac", key, data, padding, length, alg)
+            m = bs if length is None else length
+            i = c.line(f"spec.mac1\ta:{'aes' if alg == A.AES else 'des'}\t{enc_b(key)}\ti:{padding}\t{enc_b(data)}\ti:{m}")
+            c.pred("CBC-MAC = ISO 9797-1 algorithm 1 (same key, alternating algorithm)",
+                   lambda rep, r=r, i=i: None if (r.ok and rep[i] == "ok\t" + enc_b(r.value)) else f"{r.value.hex() if r.ok else r.err} != {rep[i]}")
+            if rng.random() < 0.4:
+                c.call("mac.generate_retail_mac", key, key[:8], data, padding, None)
+        yield c
     # invalid padding selectors, invalid keys, out-of-range lengths
     for padding in (0, 4, -1, 5, 16, 255):
         for fn, args in (("mac.generate_cbc_mac", lambda: (rb(rng, 16), rb(rng, 9), padding, None, None)),
